@@ -270,7 +270,7 @@ def chunks(tier, seed):
     if tier == "quick":
         maxn, nrand = 3, 3000
     elif tier == "thorough":
-        maxn, nrand = 4, 60000
+        maxn, nrand = 4, 240000
     else:
         maxn, nrand = 3, 12000
     for fam in c07.FAMILIES:
